@@ -4,8 +4,8 @@
 // Mid-call availability flips are injected deterministically for WrrSimple through the real code's own
 // debug log call inside the scan loop (bfe_debug.DebugBal + a synchronous log4go writer): after every
 // failed probe the writer applies the next scripted flip-set with the exported SetAvail.  The same writer
-// aborts a call after the probe bound of the model (simple_fuel), which the model proves is only exceeded
-// by calls that never return.  algo 5 = WrrSimple with the log hook off and a real 2 s deadline.
+// aborts a call after the probe bound of the model (simple_fuel = len(script)+2*len), within which every call of
+// the (repaired) code is proved to return.  algo 5 = WrrSimple with the log hook off and a real 2 s deadline.
 package main
 
 import (
@@ -154,7 +154,7 @@ func balance(brr *bal_slb.BalanceRR, algo int, key []byte, flips hv.L) (res hv.V
 			pw.byID[idOf(b)] = b
 		}
 		pw.mu.Lock()
-		pw.count, pw.flips, pw.bound = 0, flips, len(flips)+3*len(bs)+3
+		pw.count, pw.flips, pw.bound = 0, flips, len(flips)+2*len(bs)
 		pw.prefix = fmt.Sprintf("backend[c%d-", caseSerial)
 		pw.active = true
 		pw.mu.Unlock()
